@@ -109,6 +109,11 @@ class Unit:
     def apply_subs(self, text, subs, where):
         for pat, rep, cnt in subs:
             found = len(re.findall(pat, text))
+            if cnt < 0:
+                if found:
+                    text = re.sub(pat, lambda m: m.expand(rep), text)
+                    self.rewrites.append(('sub? /%s/ -> %s' % (pat, rep), where, found))
+                continue
             if found != cnt:
                 raise ExtractError('%s: rewrite /%s/ matches %d times, expected %d' % (where, pat, found, cnt))
             text = re.sub(pat, lambda m: m.expand(rep), text)
@@ -190,13 +195,15 @@ class Unit:
 
     @staticmethod
     def _parse_sub(h):
-        m = re.match(r'sub\s+/(.*)/\s*=>\s*(.*?)(?:\s+x(\d+))?\s*$', h)
+        # `sub /re/ => text [xN]` must match exactly N times; `sub? /re/ => text` adapts every occurrence (0 or more):
+        # used for library-call adaptations that a change may legitimately remove
+        m = re.match(r'sub(\??)\s+/(.*)/\s*=>\s*(.*?)(?:\s+x(\d+))?\s*$', h)
         if not m:
             raise ExtractError('bad sub directive: %s' % h)
-        rep = m.group(2)
+        rep = m.group(3)
         if rep == '""':
             rep = ''
-        return (m.group(1), rep, int(m.group(3) or 1))
+        return (m.group(2), rep, -1 if m.group(1) else int(m.group(4) or 1))
 
     def _locate_fn(self, file, container, name):
         s = self.src(file)
@@ -231,7 +238,7 @@ class Unit:
         for h, body in secs:
             if h.startswith('ret '):
                 ret = h[4:].strip()
-            elif h.startswith('sub '):
+            elif h.startswith('sub ') or h.startswith('sub? '):
                 subs.append(self._parse_sub(h))
             elif h == 'spec':
                 spec = body
@@ -458,7 +465,7 @@ class Unit:
     def _simple_subs(self, block):
         subs = []
         for h, body in self._sections(block):
-            if h.startswith('sub '):
+            if h.startswith('sub ') or h.startswith('sub? '):
                 subs.append(self._parse_sub(h))
             else:
                 raise ExtractError('unknown section %s' % h)
